@@ -21,3 +21,6 @@ func Bubble(t *testing.T) func(fn func()) {
 		}
 	}
 }
+
+// Settle waits until every goroutine of the bubble is durably blocked.
+func Settle() { synctest.Wait() }
